@@ -80,7 +80,7 @@ theorem C06_mismatch_int_left (fuel : Nat) (l r : Option Expr) (s s1 s2 : ES) (i
     (hl : evalExpr fuel l s = (.ok (.int i), s1)) (hr : evalExpr fuel r s1 = (.ok rv, s2))
     (hnil : rv.isNil = false) (hint : ∀ j, rv ≠ .int j) :
     evalInfix (fuel + 1) [60] l r s = (.err { kind := "unable-to-operate" }, s2) := by
-  simp only [evalInfix, bind, attempt, hl, hr, pure]
+  simp only [evalInfix, bind, attempt, getS, hl, hr, pure]
   cases rv <;> simp_all [applyInfix, Val.isNil, fail, throwErr, tolerantOps]
 
 /-- `&&` and `||` short-circuit: a falsy (truthy) left operand decides the result and the right operand
@@ -88,12 +88,12 @@ theorem C06_mismatch_int_left (fuel : Nat) (l r : Option Expr) (s s1 s2 : ES) (i
 theorem C06_short_circuit_and (fuel : Nat) (l r : Option Expr) (s s1 : ES) (v : Val)
     (hl : evalExpr fuel l s = (.ok v, s1)) (hf : isTruthy v = false) :
     evalInfix (fuel + 1) [38, 38] l r s = (.ok (.bool false), s1) := by
-  simp [evalInfix, bind, attempt, hl, pure, hf]
+  simp [evalInfix, bind, attempt, getS, hl, pure, hf]
 
 theorem C06_short_circuit_or (fuel : Nat) (l r : Option Expr) (s s1 : ES) (v : Val)
     (hl : evalExpr fuel l s = (.ok v, s1)) (ht : isTruthy v = true) :
     evalInfix (fuel + 1) [124, 124] l r s = (.ok (.bool true), s1) := by
-  simp [evalInfix, bind, attempt, hl, pure, ht, tolerantOps]
+  simp [evalInfix, bind, attempt, getS, hl, pure, ht, tolerantOps]
 
 /-- integer division truncates towards zero (Go), e.g. -7 / 2 = -3, and MinInt64 / -1 wraps -/
 example : intsOperator [47] (-7) 2 = .int (-3) ∧ intsOperator [47] 7 (-2) = .int (-3) ∧
